@@ -49,13 +49,16 @@ def gen_case(rng: np.random.Generator, small: bool = False) -> Dict[str, Any]:
     L = int(rng.choice([1, 2, 3, 4, 5, int(rng.integers(6, Lmax + 1)), int(rng.integers(6, Lmax + 1))]))
     N = int(L + rng.integers(0, 120 if small else 400))
     K = int(rng.choice([1, 1, 2, 3, int(rng.integers(2, 9 if small else 33))]))
-    mode = int(rng.integers(0, 4))
+    mode = int(rng.integers(0, 5))
     if mode == 0:
         starts = rng.integers(0, N - L + 1, size=K)
     elif mode == 1:
         starts = np.sort(rng.integers(0, N - L + 1, size=K))
     elif mode == 2:
         starts = np.full(K, int(rng.integers(0, N - L + 1)))          # all equal
+    elif mode == 3 and K * L <= N:
+        s0 = int(rng.integers(0, N - K * L + 1))
+        starts = s0 + L * np.arange(K)                                  # back-to-back segments
     else:
         starts = rng.choice([0, N - L], size=K)                        # extremes
     wk = int(rng.integers(0, 3))
@@ -124,14 +127,28 @@ def tolerances(L, omega, S1, S2, x1, x2, starts, w, order, Q):
     return (g * a * a, g * b * b, g * a * b, g * a * b, 4 * g * (a * b) ** 2)
 
 
+class InputModified(Exception):
+    pass
+
+
 def impl_call(name, c, Q):
+    """call the real kernel on the case's own arrays; the record, window, starts (and Q) are inputs and must come back
+    untouched — a kernel that writes into them corrupts every later bin computed from the same record"""
     from speckit import core
     fn = getattr(core, name)
     cross = "csd" in name
     args = [c["x1"]] + ([c["x2"]] if cross else []) + [c["starts"], c["L"], c["w"], c["omega"]]
     if "poly" in name:
         args.append(Q)
-    return tuple(float(v) for v in fn(*args))
+    snap = {k: c[k].tobytes() for k in ("x1", "x2", "w", "starts")}
+    qsnap = None if Q is None else Q.tobytes()
+    out = tuple(float(v) for v in fn(*args))
+    changed = [k for k in snap if c[k].tobytes() != snap[k]] + (["Q"] if Q is not None and Q.tobytes() != qsnap else [])
+    if changed:
+        for k in snap:                       # restore, so the search can go on
+            c[k][...] = np.frombuffer(snap[k], dtype=c[k].dtype).reshape(c[k].shape)
+        raise InputModified(",".join(changed))
+    return out
 
 
 def driver_line(name, c, Q):
@@ -225,7 +242,14 @@ def correspondence(ctx) -> C.Part:
         cross = "csd" in name
         ref, S1, S2 = direct(c["x1"], c["x2"], c["starts"], c["L"], c["w"], c["omega"], order, Q, cross)
         tol = tolerances(c["L"], c["omega"], S1, S2, c["x1"], c["x2"] if cross else c["x1"], c["starts"], c["w"], order, Q)
-        imp = impl_call(name, c, Q)
+        try:
+            imp = impl_call(name, c, Q)
+            imp_np = impl_call(name + "_np", c, Q)
+        except InputModified as ex:
+            P.cases += 1
+            P.disagreements.append({"op": "input-modified", "fn": name, "arrays": str(ex), "case": case_dump(name, c, Q, "numba/numpy"),
+                                    "note": "the model's kernels are pure functions of their inputs; the implementation wrote into an input array"})
+            continue
         gen = tuple(ctx.driver.floats(driver_line(name, c, Q)))
         P.cases += 1
         key = (name, c["L"], len(c["starts"]), c["omega_class"])
@@ -241,7 +265,6 @@ def correspondence(ctx) -> C.Part:
             P.disagreements.append({"op": "kernel", "fn": name, "components": bad, "impl": imp, "generated_lean": gen, "tol": tol,
                                     "case": case_dump(name, c, Q, "numba")})
         # NumPy fallback vs the hand model (Model.refStats in Float)
-        imp_np = impl_call(name + "_np", c, Q)
         mdl = tuple(ctx.driver.floats(ref_line(order, cross, c, Q)))
         P.cases += 1
         bad = cmp5(imp_np, mdl, tol)
@@ -314,6 +337,11 @@ def oracle(ctx, intensive: bool = False, hints: List[Dict[str, Any]] = ()) -> C.
                 check_case(P, name, "numpy", cc, Q, impl_call(name + "_np", cc, Q))
                 if cuda is not None and cc["L"] * len(cc["starts"]) <= 400 and (i % 4 == 0 or intensive or i < len(cases)):
                     check_case(P, name, "cuda-sim", cc, Q, cuda.call(name, cc, Q))
+            except InputModified as ex:
+                P.violations.append(C.Violation(
+                    what=f"{name} (or its NumPy fallback) modified its input array(s) {ex} in place: later bins on the same record no longer "
+                         f"equal the windowed DFT of the supplied record (L={cc['L']} K={len(cc['starts'])} starts={cc['starts'].tolist()[:6]})",
+                    signature={"fn": name, "input_modified": True}, replay={"case": case_dump(name, cc, Q, "numpy"), "modified": str(ex)}))
             except Exception as ex:
                 P.violations.append(C.Violation(what=f"{name} raised {ex!r} on an in-range case", signature={"fn": name, "raises": True},
                                                 replay={"case": case_dump(name, cc, Q, "?"), "error": repr(ex)}))
